@@ -546,7 +546,15 @@ Definition role_may_write (v6 : bool) (role : N) (p : list string) : bool :=
   match role with
   | 1%N | 2%N | 3%N | 4%N | 6%N => true                       (* updater, redactor, io-finaliser, signer, combiner *)
   | 5%N => mem_path p [["transparent"; "inputs"; "script_sig"];
-                       ["transparent"; "inputs"; "partial_signatures"]]   (* spend finaliser *)
+                       ["transparent"; "inputs"; "partial_signatures"];
+                       ["transparent"; "inputs"; "redeem_script"];
+                       ["transparent"; "inputs"; "bip32_derivation"];
+                       ["transparent"; "inputs"; "ripemd160_preimages"];
+                       ["transparent"; "inputs"; "sha256_preimages"];
+                       ["transparent"; "inputs"; "hash160_preimages"];
+                       ["transparent"; "inputs"; "hash256_preimages"]]
+      (* spend finaliser (zcash_transparent pczt/spend_finalizer.rs): sets script_sig and clears the
+         signing helper data of every input *)
   | _ => false
   end.
 Local Close Scope string_scope.
